@@ -89,7 +89,7 @@ THEOREMS = [
     "C11_decode_int_spec", "C11_decode_int_need_more", "C11_decode_int_truncated",
     "C11_decode_int_overflow", "C11_decode_int_bound", "C11_decode_int_encode_int",
     "C11_decode_no_fuel", "C11_hpack_decode_sound", "C11_hpack_decode_sound_rfc_except_known",
-    "C11_hpack_decode_complete_modulo_validation", "C11_hpack_table_bounded",
+    "C11_hpack_decode_complete_modulo_validation", "C11_hpack_table_bounded", "C11_reachable_wf",
     "C11_hpack_table_within_limit_except_known", "C11_hpack_chunking_except_known",
     "C11_hpack_chunking_by_verdict", "C11_known_1_refuted", "C11_known_3_refuted",
 ]
